@@ -86,14 +86,14 @@ CHECKS = {
 
 # Extensions added after the first build (appended to the level text of the check).
 EXTRA = {
- "C02": "Part-count dimension: structured locations of 6..12 (thorough 20) parts (ascending/descending joins, orders, complements, alternating strands, outer markers) x every index x guest lengths 1..2 x {Insert, Embed}.",
- "C04": "Part-count dimension: structured locations of 6..12 (thorough 20) parts x every rotation in [-L,L] and the pairs (n,-n), (n,1).",
+ "C02": "Table dimension: every ordered triple of features over a ten-location menu on six residues x every index x guest lengths 1..2 x {Insert, Embed}. Part-count dimension: structured locations of 6..12 (thorough 20) parts (ascending/descending joins, orders, complements, alternating strands, outer markers) x every index x guest lengths 1..2 x {Insert, Embed}.",
+ "C04": "Table dimension: every ordered triple of features over a ten-location menu x every rotation in [-L,L]. Part-count dimension: structured locations of 6..12 (thorough 20) parts x every rotation in [-L,L] and the pairs (n,-n), (n,1).",
  "C05": "Part-count dimension: structured locations of 6..14 (thorough 24) parts.",
  "C06": "Part-count dimension: structured locations of 6..16 (thorough 30) parts and values with coordinates of up to seven digits.",
- "C10": "Part-count dimension: structured locations of 6..10 (thorough 16) parts: insert;delete and embed;delete at every index, cut sets of 1..3 positions.",
+ "C10": "Cut;concat also without the record-spanning source feature. Table dimension: every ordered triple of features over a ten-location menu: insert;delete and embed;delete at every index. Part-count dimension: structured locations of 6..10 (thorough 16) parts: insert;delete and embed;delete at every index, cut sets of 1..3 positions.",
  "C01": "Also: the operations undo-insert (delete exactly what an insertion put in) and gap deletion in the program alphabet, so that locations an edit leaves unreduced are written and read back; a seed record that has both a CONTIG line and an ORIGIN block (eight seeds).",
- "C03": "The judged slice is never the first slice of its parent: two earlier slices of the same GenBank record are taken first and must read the same afterwards, as must the parent. Reference sets none of which survives the window. Part-count dimension: structured locations of 6..10 (thorough 16) parts x every deletion of 1..3 residues and every window inside [0,L].",
- "C07": "A stream cut inside a record must be reported as an error (no clean end after k records). History independence of the seven string parsers: every token string up to length 4-5 evaluated in ascending and in descending order in two fresh processes must get the same answer, and every string of a curated set must get the same answer in a fresh process as after the whole set (the shortest offending pair is reported). The checker runs under a supervisor process: a runtime fatal error (out of memory, stack exhaustion) raised by the code under test is located with a serial journalled re-run, confirmed in a fresh process and reported as a VIOLATION.",
+ "C03": "The judged slice is never the first slice of its parent: two earlier slices of the same GenBank record are taken first and must read the same afterwards, as must the parent. Reference sets none of which survives the window. Table dimension: every ordered triple of features over a ten-location menu x every deletion, erasure and window. Part-count dimension: structured locations of 6..10 (thorough 16) parts x every deletion of 1..3 residues and every window inside [0,L].",
+ "C07": "A stream cut inside a record must be reported as an error (no clean end after k records). Mixed line endings (one line's ending toggled, blank lines with either ending, a bare CR) on LF and CRLF renderings of the small seeds. Work proportional to the input by statement counts: an instrumented helper (go build -cover) runs one parser on generated inputs of size n, 2n, 4n for 29 input families; the statements executed in the gts packages may grow by at most 2.8x per doubling. History independence of the seven string parsers: every token string up to length 4-5 evaluated in ascending and in descending order in two fresh processes must get the same answer, and every string of a curated set must get the same answer in a fresh process as after the whole set (the shortest offending pair is reported). The checker runs under a supervisor process: a runtime fatal error (out of memory, stack exhaustion) raised by the code under test is located with a serial journalled re-run, confirmed in a fresh process and reported as a VIOLATION.",
  "C08": "Size dimension: structured regions of up to 12 (quick) / 20 (thorough) segments x three length patterns x four orientation patterns, listed and complemented, x all modifiers; regions with zero-length (between-site) segments at their ends, on one strand, x all modifiers (known finding KF-zero-length-end-segment). Locator tables include features that agree in 5' end, 3' end and spliced length but differ inside.",
  "C09": "Every piece of the circular inversion must be one stretch of the circle: a forward segment, or (at most once) [a,n)+[0,b). Segment-count dimension: structured collections of 4..40 (thorough 120) segments (disjoint, abutting, overlapping chain, nested, alternating strands; ascending, descending, interleaved).",
  "C11": "Five feature-table shapes (incl. a guest / a host without features). Size dimension: the host table padded with 1..70, ~122, ~250 and ~506 extra features and the host residues grown along the size ladder (to 20000 quick / 300000 thorough) under every one-step program and 70 two-step programs.",
